@@ -35,6 +35,21 @@ class Violation(Exception):
     pass
 
 
+# A run that had to abandon tasks which swallow every cancellation (misbehaving code under test) leaves suspended
+# coroutines behind; when they are finalised after their loop was closed CPython prints "Exception ignored …
+# RuntimeError: Event loop is closed".  That is noise about an already reported observation: filtered.
+_orig_unraisable = sys.unraisablehook
+
+
+def _quiet_unraisable(u):
+    if isinstance(u.exc_value, RuntimeError) and "Event loop is closed" in str(u.exc_value):
+        return
+    _orig_unraisable(u)
+
+
+sys.unraisablehook = _quiet_unraisable
+
+
 class Runner:
     """One execution of one case."""
 
@@ -272,9 +287,33 @@ class Runner:
                     self.emit("finished", t)
                     return
                 continue
+            except BaseException as e:  # noqa: BLE001
+                # the code under test misbehaved (RuntimeError out of release(): the block was left without the
+                # lock; AssertionError out of the lock's bookkeeping; …): recorded and judged, never a harness crash
+                self.keep.append(e)
+                st["inwait"] = False
+                lk = self.lock
+                if isinstance(e, RuntimeError) and "not acquired" in str(e):
+                    self.fail("exit-without-lock",
+                              f"consumer {t}: leaving `async with cond:` raised RuntimeError({e}) — the lock was not "
+                              f"held (owner={lk.ghost_owner}, locked={lk.locked()})")
+                else:
+                    self.fail("foreign-exception", f"consumer {t}: {type(e).__name__}: {e} escaped from the "
+                              f"condition/lock code")
+                self.emit("finished", t)
+                return
         self.emit("finished", t)
 
     async def producer(self, t, n, hold, tokens=None):
+        try:
+            await self.producer_body(t, n, hold, tokens)
+        except asyncio.CancelledError:
+            raise
+        except BaseException as e:  # noqa: BLE001
+            self.keep.append(e)
+            self.fail("foreign-exception", f"producer {t}: {type(e).__name__}: {e} escaped from the condition/lock code")
+
+    async def producer_body(self, t, n, hold, tokens=None):
         cond = self.cond
         async with cond:
             if n is None:
@@ -579,6 +618,19 @@ class Runner:
                           f"{where}: quiescent with {self.tokens} token(s) left while consumer(s) {blocked} "
                           f"are still blocked un-notified in wait()")
 
+    def stuck_check(self, where):
+        """quiescent (nothing can run), the lock is free, yet a consumer sits in wait()'s re-acquire loop: it
+        will never leave wait()"""
+        lk = self.lock
+        if lk.locked() or lk.ghost_owner is not None:
+            return
+        stuck = [t for t, st in self.state.items()
+                 if st["phase"] in ("acquiring", "reacq") and not self.tasks[t].done()]
+        if stuck:
+            self.fail("stuck-reacquiring",
+                      f"{where}: nothing is runnable and the lock is free, but consumer(s) {stuck} are still blocked "
+                      f"re-acquiring it inside wait(): they never leave wait()")
+
     async def driver(self):
         loop = self.loop
         for t, c in enumerate(self.cons):
@@ -594,6 +646,7 @@ class Runner:
             if len(loop._ready) == 0:
                 # quiescent: nothing but the driver can run
                 self.lost_check("mid-run")
+                self.stuck_check("mid-run")
                 self.draining = False
                 progressed = False
                 while not progressed:
@@ -609,6 +662,7 @@ class Runner:
             await asyncio.sleep(0)
         self.finished = True
         self.lost_check("end")
+        self.stuck_check("end")
         # tear down: not part of the trace
         self.teardown = True
         everyone = list(self.tasks.values()) + self.agents
@@ -621,7 +675,19 @@ class Runner:
             for _ in range(4):
                 await asyncio.sleep(0)
         else:
-            raise core.InfraError("C14 teardown does not terminate")
+            # tasks that swallow every cancellation (a waiter spinning in a re-acquire loop that can never succeed):
+            # an observation about the code under test, not an infrastructure problem
+            live = [k for k, t in self.tasks.items() if not t.done()]
+            self.bad.append(("stuck-reacquiring", f"task(s) {live} cannot be torn down: they swallow every cancellation "
+                             f"and never leave wait()"))
+            for t in everyone:
+                if not t.done():
+                    t._log_destroy_pending = False
+                    try:
+                        t.get_coro().close()      # now, where what it raises can be caught (not at GC time)
+                    except BaseException:  # noqa: BLE001
+                        pass
+            return
         await asyncio.gather(*everyone, return_exceptions=True)
 
     def after_handle(self, handle):
@@ -630,7 +696,8 @@ class Runner:
             return
         self.handles += 1
         if self.handles > MAX_HANDLES:
-            raise core.InfraError("C14 run does not terminate")
+            self.bad.append(("stuck-reacquiring", f"the run does not become quiescent within {MAX_HANDLES} handles"))
+            raise Violation("livelock")
         cb = getattr(handle, "_callback", None)
         if getattr(cb, "__self__", None) is self.driver_task:
             self.low = []
